@@ -131,7 +131,12 @@ def _simplify_math(f: Callable) -> ast.AST:
 
         # TODO substitute constant calls, attributes and other stuff with variables
 
-        source = str(sympy.simplify(source))
+        try:
+            source = str(sympy.simplify(source))
+        except (ArithmeticError, ValueError, TypeError) as error:
+            # For example 1 // 0 or 1 << -1, which sympy evaluates
+            raise NotImplementedError(f"Cannot simplify {source}") from error
+
         return core.parse(source)
 
     return wrapper
@@ -245,7 +250,10 @@ def simplify_math_iterators(source: str) -> str:
             if not core.match_template(step, ast.Constant(value=1)):
                 # _sum_range only knows the closed form for a step of 1
                 continue
-            yield node, _sum_range(arg)
+            try:
+                yield node, _sum_range(arg)
+            except NotImplementedError:
+                continue
 
         elif node.func.id != "sum":
             # The closed forms below are sums, they are not the len() of anything
@@ -259,7 +267,10 @@ def simplify_math_iterators(source: str) -> str:
                 for node in core.walk(arg, ast.Call)
             ):
                 continue
-            yield node, _sum_constants(arg.elts)
+            try:
+                yield node, _sum_constants(arg.elts)
+            except NotImplementedError:
+                continue
 
         elif core.match_template(arg, basic_comprehension_template):
             if any(core.walk(arg, (ast.Attribute, ast.Subscript))):
